@@ -11,12 +11,12 @@ CHECKS = {
     "C01": dict(
         technique="differential property-based testing against CPython's ast.parse: grammar-generated programs, layout variants, corpus statements; field-by-field and span-by-span tree comparison",
         text="Exploration: every generated/corpus Python text CPython accepts (inside the property's domain) must give a tree equal to ast.parse's in node classes, field values and all four position attributes, in exec and eval mode. Held on everything generated except the listed finding D7 (non-ASCII columns).",
-        note="Reference = the CPython 3.12 running the check. The comparison is my own recursive astdiff (not ast.dump). Domain exclusions (f-strings, '@(', BOM/NUL, nesting>50) are counted in the evidence.",
+        note="Reference = the CPython 3.12 running the check. The comparison is my own recursive astdiff (not ast.dump). Domain exclusions ('@(', BOM/NUL, nesting>50; f-strings are in the domain, with C10's normalisation of the reference's format-spec artefacts) are counted in the evidence. One program of >= 100 000 tokens is part of every run.",
         ref="DESIGN.md §4 C01",
     ),
     "C09": dict(
         technique="differential property-based testing against CPython's tokenize: generated programs, layout variants, corpus, and systematic lexical fragments (numbers, strings, all operator-token pairs/triples, indentation structures)",
-        text="Exploration: on every generated text CPython's tokenize accepts (no f-strings, no xonsh-only characters, no '@('), the significant token sequence must equal CPython's in kind, text and coordinates (structural tokens: kind at the same index). Operator pairs are enumerated exhaustively in the quick tier, triples in the thorough tier. Held except the listed findings D23, D24, D40.",
+        text="Exploration: on every generated text CPython's tokenize accepts (no xonsh-only characters, no '@('; an f-string counts as one opaque token from prefix to closing quote on both sides, its inside is C10's), the significant token sequence must equal CPython's in kind, text and coordinates (structural tokens: kind at the same index). Operator pairs are enumerated exhaustively in the quick tier, triples in the thorough tier. Held except the listed findings D23, D24, D40.",
         note="Reference = tokenize.generate_tokens of the running CPython 3.12; reference tokens whose coordinates contradict their own text (a CPython bug after non-ASCII text) are excluded and counted.",
         ref="DESIGN.md §4 C09",
     ),
@@ -29,7 +29,7 @@ CHECKS = {
     "C11": dict(
         technique="property-based testing of the error path: mutated/truncated programs and ~170 targeted syntax errors wrapped in generated layouts, checked against a validity predicate over (exception, source text)",
         text="Exploration: every SyntaxError/IndentationError raised for a generated rejected input must carry msg, filename, 1<=lineno<=nlines+1, 1<=offset<=len(line)+1, an end position >= start, and a text starting with the reported source line. Histogram by raising site shows which raise_* helpers, tokenizer and literal-evaluation paths were reached. Held on everything generated.",
-        note="The predicate is the property's own wording; text is compared modulo trailing whitespace (EOF tokens carry an empty line). TokenError outcomes are outside C11.",
+        note="The predicate is the property's own wording; text is compared modulo trailing whitespace. A fifth of the inputs also goes through parse_file on one path that is rewritten for every case (error text re-read from the file). TokenError outcomes are outside C11.",
         ref="DESIGN.md §4 C11",
     ),
     "C12": dict(
@@ -41,7 +41,7 @@ CHECKS = {
     "C13": dict(
         technique="stateful (model-based) property testing: a Hypothesis RuleBasedStateMachine drives sequences of parse / parse_file / threaded-parse / keep steps over a pool of inputs in one process; the model is the table of outcomes computed in fresh interpreters",
         text="Exploration over call histories and sampled thread schedules: every result must equal the fresh-interpreter reference, kept trees must re-dump identically after every later step, module singletons must stay attribute-free. Histories of one worker share a process, so state also carries across histories. Held on everything generated; thread interleavings are sampled, not enumerated.",
-        note="Reference outcomes come from batched fresh interpreters, cross-checked against one-parse-per-process for a sample. Schedules are varied through thread count, start barrier and sys.setswitchinterval only.",
+        note="Reference outcomes come from batched fresh interpreters, cross-checked against one-parse-per-process for a sample. Schedules are varied through thread count, start barrier and sys.setswitchinterval only. Interpreter-wide settings (recursion limit, cwd, locale, warnings filters, stdout/stderr, environment, trace hooks, thread count) are an invariant; half of the threaded steps run at the default recursion limit.",
         ref="DESIGN.md §4 C13",
     ),
     "C14": dict(
@@ -53,14 +53,14 @@ CHECKS = {
     "C15": dict(
         technique="metamorphic property-based testing over the option space: every generated input (valid, invalid, xonsh, version-gated) is parsed in all 28 cells of verbose x py_version x mode and the canonical outcomes are related (verbose vs quiet equality; monotone version gating derived from the default tree)",
         text="Exploration: verbose never changes the outcome; lowering py_version only turns acceptance of except*/type parameters/type statements into a SyntaxError naming the required version; rejected inputs stay rejected in every cell. Held on everything generated.",
-        note="The gate of an input is computed from its default tree (TypeAlias / type_params -> 3.12, TryStar -> 3.11). Verbose output is discarded by redirecting sys.stdout.",
+        note="The gate of an input is computed from its default tree (TypeAlias / type_params -> 3.12, TryStar -> 3.11). Verbose output is discarded by redirecting sys.stdout (for non-ASCII sources into a stream that only accepts ASCII, as a terminal under LC_ALL=C). Gated programs and a sixth of the others also go through parse_file in every py_version cell; long chains are traced under the default recursion limit.",
         ref="DESIGN.md §4 C15",
     ),
     "C16": dict(
         category="translation_validation",
         technique="translation validation by regeneration: both generators are re-run from the working tree's grammars under several PYTHONHASHSEED values and the outputs are compared with each other (byte-wise) and with the shipped modules (per-rule AST comparison)",
         text="Translation validation of the two shipped (grammar, generated parser) pairs: every rule method of the shipped module must have the same decorators, parameters and body AST as the regenerated one, tables and module-level statements must agree, and generation must be byte-identical across runs and hash seeds. Held.",
-        note="Formatting, comments, unused imports and return annotations are ignored as the property allows; the generators themselves are trusted to be the 'documented generation step' (Taskfile.yml without the ruff pass).",
+        note="Formatting, comments, unused imports and return annotations are ignored as the property allows; the generators themselves are trusted to be the 'documented generation step' (Taskfile.yml without the ruff pass). Generation is also repeated three times inside one interpreter.",
         ref="DESIGN.md §4 C16",
     ),
     "C17": dict(
@@ -72,7 +72,7 @@ CHECKS = {
     "C18": dict(
         technique="property-based testing over size-parameterised input families with deterministic work counters (token reads/peeks/resets of a counting Tokenizer subclass): fixed families from the grammar's recursion structure + Hypothesis-drawn wrapper mixtures, valid and invalid; linear bound and doubling-ratio oracle",
         text="Exploration: each family is instantiated at doubling sizes and must satisfy work <= 3000*tokens+20000 and work(2n)/work(n) <= 2.6; no wall-clock is involved so verdicts are reproducible. Decides linearity only for the families generated. Held except the listed finding D42 (quadratic on rejected nested subprocesses).",
-        note="Work is proxied by tokenizer-level counters. The pattern language and thresholds are mine (pinned tree needs 100-600 operations per token).",
+        note="Work = getnext/peek/reset calls plus every element handed out by the tokenizer's token cache (counting list). Fixed families are also measured with verbose=True; nests are also placed after a 10 000-token prefix (work added by the nest). The pattern language and thresholds are mine (pinned tree needs 100-600 operations per token).",
         ref="DESIGN.md §4 C18",
     ),
     "C02": dict(
